@@ -562,7 +562,11 @@ def confirm_liveness(fam, binary, results):
     keep = []
     tried = {}
     for kind, where, detail, replay in fam.verd.violations:
-        if kind not in ("C01_Progress", "C18_NoStall", "C02_ExchangeCompletes", "C17_HandleReturns", "C18_TimeoutClosesAndReports"):
+        sc0 = replay.get("scenario") if isinstance(replay, dict) else None
+        timed = isinstance(sc0, dict) and bool(sc0.get("opts", {}).get("respTimeoutMs")) and kind[:1] == "C" and "_" in kind
+        # (scenarios with a response timeout are judged after a quiet period that has to outlast that timer: every observer
+        # of such a run is confirmed, not only the liveness stand-ins)
+        if kind not in ("C01_Progress", "C18_NoStall", "C02_ExchangeCompletes", "C17_HandleReturns", "C18_TimeoutClosesAndReports") and not timed:
             keep.append((kind, where, detail, replay))
             continue
         if tried.get(kind, 0) >= 3:
